@@ -47,6 +47,11 @@ static void task_fn(struct aws_task *t, void *arg, enum aws_task_status status) 
         if (reentrant_mode == 1) aws_thread_scheduler_schedule_now(ts, &task[1]);
         if (reentrant_mode == 2) aws_thread_scheduler_cancel_task(ts, &task[2]);
     }
+    /* mode 3: task 2, when its explicit cancellation is delivered by the scheduler thread, schedules task 1 (a follow-up) */
+    if (i == 2 && status == AWS_TASK_STATUS_CANCELED && reentrant_mode == 3 && !reentrant_done && vs_current_tid() == 1) {
+        reentrant_done = 1;
+        aws_thread_scheduler_schedule_now(ts, &task[1]);
+    }
     struct tlog *l = &tl[i];
     if (status == AWS_TASK_STATUS_RUN_READY && !run_collect_seq[i]) run_collect_seq[i] = vs_last_lock_seq(vs_current_tid());
     if (l->n < 4) {
@@ -332,6 +337,45 @@ static void s12(void) {
     finish(h, c);
 }
 
+/* S13: a far-future task is cancelled explicitly; when the scheduler thread delivers the CANCELED call, the task's function
+ * schedules a follow-up task on the same scheduler (re-entrancy from a cancellation, S8 covers it from a run).  Nothing may
+ * dead-lock, and the follow-up - handed over iff the re-entrant call happened - is invoked exactly once (added after a
+ * seeded change that delivered cancellations with the hand-over mutex still held) */
+static void s13(void) {
+    setup();
+    reentrant_mode = 3;
+    uint64_t now = 0;
+    aws_high_res_clock_get_ticks(&now);
+    task_time[2] = now + 3600ull * 1000000000ull;
+    aws_thread_scheduler_schedule_future(ts, &task[2], task_time[2]);
+    pthread_mutex_lock(&hm); /* points at which the scheduler thread may take the task over first */
+    pthread_mutex_unlock(&hm);
+    aws_thread_scheduler_cancel_task(ts, &task[2]);
+    cancel_done_seq[2] = vs_seq_now();
+    pthread_mutex_lock(&hm); /* ... and deliver the cancellation before the release */
+    pthread_mutex_unlock(&hm);
+    int h[NT] = {0, reentrant_done, 1}, c[NT] = {0, 0, 1};
+    aws_thread_scheduler_release(ts);
+    after_release = 1;
+    h[1] = reentrant_done;
+    VS_CHECK(vs_threads_unfinished() == 0, "thread-alive-after-release", "%d thread(s) still running after the last release returned", vs_threads_unfinished());
+    for (int i = 0; i < NT; ++i) check_task(i, h[i], c[i]);
+    VS_CHECK(invoked_after_release == 0, "invoked-after-release", "a task function ran after release returned");
+    VS_CHECK(ga.live_blocks == 0, "leak", "%llu allocation(s) still live after the last release", (unsigned long long)ga.live_blocks);
+    vs_outcome("follow-up %s", reentrant_done ? (tl[1].n ? st(tl[1].status[0]) : "LOST") : "not scheduled (cancellation delivered at shutdown)");
+}
+/* S14: the only pending task is parked at the largest representable time (a "never" sentinel): the final release must still
+ * invoke it, with CANCELED (added after a seeded change whose has-tasks answer ignored a task at UINT64_MAX) */
+static void s14(void) {
+    setup();
+    task_time[0] = UINT64_MAX;
+    aws_thread_scheduler_schedule_future(ts, &task[0], UINT64_MAX);
+    pthread_mutex_lock(&hm);
+    pthread_mutex_unlock(&hm);
+    int h[NT] = {1, 0, 0}, c[NT] = {0, 0, 0};
+    finish(h, c);
+}
+
 static uint64_t user_digest(void) {
     uint64_t h = 1469598103934665603ull;
     for (int i = 0; i < NT; ++i) {
@@ -357,6 +401,8 @@ int main(int argc, char **argv) {
         {.name = "S10-two-owners-release", .run = s10, .bound_quick = 2, .bound_thorough = 3, .digest = user_digest},
         {.name = "S11-timed-task-cancelled", .run = s11, .bound_quick = 3, .bound_thorough = 4, .digest = user_digest},
         {.name = "S12-cancel-pulled-task-with-timed-queue", .run = s12, .bound_quick = 2, .bound_thorough = 3, .digest = user_digest},
+        {.name = "S13-cancellation-callback-schedules-follow-up", .run = s13, .bound_quick = 2, .bound_thorough = 3, .digest = user_digest},
+        {.name = "S14-only-task-parked-at-uint64-max", .run = s14, .bound_quick = 3, .bound_thorough = 4, .digest = user_digest},
         {.name = "S7-three-clients", .run = s7, .bound_quick = -1, .bound_thorough = 1, .digest = user_digest},
     };
     return vsx_main(sc, (int)(sizeof(sc) / sizeof(sc[0])));
